@@ -240,7 +240,7 @@ def count_rules(repo):
             out.append(unrecognised("R-AXES", fi, role, "flat index is `%s`" % t, xi))
     elif _stride_version_mismatch(fi, xi) is not None:
         rs_, da, db = _stride_version_mismatch(fi, xi)
-        out.append(violation("R-AXES", fi, role, "the flat index uses the value of n_annotations defined at line(s) %s but the reshape/"
+        out.append(named("R-AXES", fi, role, "the flat index uses the value of n_annotations defined at line(s) %s but the reshape/"
                              "allocation at line %d sees the definition(s) at line(s) %s (the `shape` override changes the row stride)" % (
                                  sorted(da), rs_.lineno, sorted(db)), xi,
                              witness={"shape": "(n_examples, wider than max annotation + 1)", "effect": "rows of examples >= 1 land in wrong cells"}))
